@@ -29,11 +29,11 @@ Proof. unfold upd. now rewrite Nat.eqb_refl. Qed.
 Lemma upd_other {A} (f : nat -> A) n v k : k <> n -> upd f n v k = f k.
 Proof. intros H. unfold upd. destruct (Nat.eqb_spec k n); [contradiction|reflexivity]. Qed.
 
-(* positions with jit 0: _pos_equal means identical *)
-Lemma close_eq a b : p_jit a = 0 -> p_jit b = 0 -> pos_close a b = true -> a = b.
+(* the current tree compares positions exactly: _pos_equal plus equal external drift means the same target *)
+Lemma close_eq a b : pos_close repaired a b = true -> p_ext a = p_ext b -> a = b.
 Proof.
-  destruct a as [ba ja], b as [bb jb]. unfold pos_close. simpl. intros -> -> H.
-  apply Nat.eqb_eq in H. now subst.
+  destruct a as [ba ja xa], b as [bb jb xb]. unfold pos_close. simpl. intros H E.
+  apply andb_true_iff in H. destruct H as [H1 H2]. apply Nat.eqb_eq in H1, H2. now subst.
 Qed.
 
 (* the settings part of a descriptor *)
@@ -42,9 +42,7 @@ Definition settings (d : KDesc) := (k_cond d, k_matmodel d, k_model d, k_mtn d).
 (* ---------- the invariant of the current tree *)
 Definition Inv (s : St) : Prop :=
   st_matmodel s < st_next s /\ st_model s < st_next s /\ st_kvid s < st_next s /\
-  (forall ns id m rp, st_ref s ns = Some (id, m, rp) -> id < st_next s /\ p_jit rp = 0) /\
-  (forall q, st_pos s = Some q -> p_jit q = 0) /\
-  p_jit (k_pos (st_kv s)) = 0 /\
+  (forall ns id m rp, st_ref s ns = Some (id, m, rp) -> id < st_next s) /\
   (* the stored kriging variance was computed from the current settings *)
   (refreshed s -> has 1 (st_knames s) = true -> settings (st_kv s) = settings (cur_desc s)) /\
   (* if the stored krige_var is the object remembered with raw_krige, both stem from one kriging run *)
@@ -55,40 +53,31 @@ Definition Inv (s : St) : Prop :=
 Lemma Inv_init sd : Inv (init sd).
 Proof. unfold Inv, init; simpl. repeat split; try lia; try discriminate; intros; discriminate. Qed.
 
-Ltac inv_tac :=
-  repeat match goal with
-         | |- _ /\ _ => split
-         | |- forall _, _ => intro
-         end; simpl in *; try lia; try discriminate; try congruence; eauto.
-
 Lemma Inv_with_seed s x : Inv s -> Inv (with_seed s x).
 Proof. intros H. exact H. Qed.
 
-Lemma Inv_with_pos s q : p_jit q = 0 -> Inv s -> Inv (with_pos s q).
+Lemma Inv_with_pos s q : Inv s -> Inv (with_pos s q).
+Proof. intros (B1 & B2 & B3 & R & K & T). split; [exact B1|split; [exact B2|split; [exact B3|split; [exact R|split; [exact K|exact T]]]]]. Qed.
+
+Lemma Inv_with_ext s x : Inv s -> Inv (with_ext s x).
+Proof. intros H. unfold with_ext. destruct (st_pos s); [now apply Inv_with_pos|exact H]. Qed.
+
+Lemma Inv_set_pos s q m : Inv s -> Inv (fst (do_set_pos repaired s q m)).
 Proof.
-  intros Hq (B1 & B2 & B3 & R & P & J & K & T).
-  split; [exact B1|split; [exact B2|split; [exact B3|split; [exact R|split; [|split; [exact J|split; [exact K|exact T]]]]]]].
-  intros q0 E. simpl in E. injection E as <-. exact Hq.
+  intros (B1 & B2 & B3 & R & K & T). unfold do_set_pos. simpl.
+  split; [exact B1|split; [exact B2|split; [exact B3|split; [exact R|]]]].
+  destruct (pos_changed repaired s q m); simpl.
+  - split; [intros _ E; discriminate E|intros ns id m0 rp E; discriminate E].
+  - split; [exact K|exact T].
 Qed.
 
-Lemma Inv_set_pos s q m : p_jit q = 0 -> Inv s -> Inv (fst (do_set_pos s q m)).
+Lemma Inv_krige_set_pos s q m : Inv s -> Inv (krige_set_pos repaired s q m).
 Proof.
-  intros Hq (B1 & B2 & B3 & R & P & J & K & T). unfold do_set_pos. simpl.
-  split; [exact B1|split; [exact B2|split; [exact B3|split; [exact R|split; [|split; [exact J|]]]]]].
-  - intros q0 E. simpl in E. injection E as <-. exact Hq.
-  - destruct (pos_changed s q m); simpl.
-    + split; [intros _ E; discriminate E|intros ns id m0 rp E; discriminate E].
-    + split; [exact K|exact T].
-Qed.
-
-Lemma Inv_krige_set_pos s q m : p_jit q = 0 -> Inv s -> Inv (krige_set_pos s q m).
-Proof.
-  intros Hq (B1 & B2 & B3 & R & P & J & K & T). unfold krige_set_pos.
-  split; [exact B1|split; [exact B2|split; [exact B3|split; [exact R|split; [|split; [exact J|]]]]]].
-  - intros q0 E. simpl in E. injection E as <-. exact Hq.
-  - destruct (pos_changed s q m); simpl.
-    + split; [intros _ E; discriminate E|intros ns id m0 rp _ E; discriminate E].
-    + split; [exact K|exact T].
+  intros (B1 & B2 & B3 & R & K & T). unfold krige_set_pos.
+  split; [exact B1|split; [exact B2|split; [exact B3|split; [exact R|]]]].
+  destruct (pos_changed repaired s q m); simpl.
+  - split; [intros _ E; discriminate E|intros ns id m0 rp _ E; discriminate E].
+  - split; [exact K|exact T].
 Qed.
 
 (* what the reuse decision of the current tree guarantees *)
@@ -97,18 +86,16 @@ Lemma reuse_current s2 del ns :
   negb del && has (3 * ns + 2) (st_cnames s2) && has 1 (st_knames s2) && token_ok repaired s2 ns = true ->
   st_rk s2 ns = cur_desc s2 /\ st_kv s2 = cur_desc s2.
 Proof.
-  intros (B1 & B2 & B3 & R & P & J & K & T) Hr E.
+  intros (B1 & B2 & B3 & R & K & T) Hr E.
   apply andb_true_iff in E. destruct E as [E E4]. apply andb_true_iff in E. destruct E as [E E3].
   apply andb_true_iff in E. destruct E as [_ E2].
-  unfold token_ok in E4. change (slot repaired ns) with ns in E4.
+  unfold token_ok in E4. change (slot repaired ns) with ns in E4. change (f_exttoken repaired) with true in E4. cbv iota in E4.
   destruct (st_ref s2 ns) as [[[id m] rp]|] eqn:F; [|discriminate].
-  apply andb_true_iff in E4. destruct E4 as [E4 E6]. apply andb_true_iff in E4. destruct E4 as [E4 E5].
-  apply Nat.eqb_eq in E4. apply eqb_prop in E5.
+  apply andb_true_iff in E4. destruct E4 as [E4 E7]. apply andb_true_iff in E4. destruct E4 as [E4 E6].
+  apply andb_true_iff in E4. destruct E4 as [E4 E5].
+  apply Nat.eqb_eq in E4, E7. apply eqb_prop in E5.
   destruct (T ns id m rp E2 E3 F E4) as (T1 & T2 & T3).
-  destruct (R ns id m rp F) as [_ Jr].
-  assert (Jc : p_jit (cur_pos s2) = 0).
-  { unfold cur_pos. destruct (st_pos s2) eqn:Ps; [now apply P|reflexivity]. }
-  pose proof (close_eq _ _ Jc Jr E6) as Ep.
+  pose proof (close_eq _ _ E6 E7) as Ep.
   pose proof (K Hr E3) as Ks. unfold settings in Ks. simpl in Ks.
   assert (st_kv s2 = cur_desc s2).
   { destruct (st_kv s2) as [kp km kc kmm kmo kmt]. simpl in *. unfold cur_desc.
@@ -123,14 +110,12 @@ Lemma finish_ok s2 del srk ns : Inv s2 ->
   exists o, r = RField o /\ o_gmodel o = st_model s' /\ o_seed o = st_seed s' /\ o_post o = st_mtn s' /\
             (refreshed s' -> o_k o = cur_desc s' /\ o_v o = cur_desc s').
 Proof.
-  intros HI. pose proof HI as (B1 & B2 & B3 & R & P & J & K & T). unfold finish_call.
+  intros HI. pose proof HI as (B1 & B2 & B3 & R & K & T). unfold finish_call.
   change (f_token repaired) with true. change (slot repaired ns) with ns. cbv iota zeta.
   set (rn := rkset srk ns).
   set (reuse := negb del && has (3 * rn + 2) (st_cnames s2) && has 1 (st_knames s2) && token_ok repaired s2 rn).
   assert (RC : reuse = true -> refreshed s2 -> st_rk s2 rn = cur_desc s2 /\ st_kv s2 = cur_desc s2).
   { intros E Hr. apply (reuse_current s2 del rn HI Hr E). }
-  assert (Jc : p_jit (cur_pos s2) = 0).
-  { unfold cur_pos. destruct (st_pos s2) eqn:Ps; [now apply P|reflexivity]. }
   (* the raw-kriging names of other name sets are not touched by this call *)
   assert (NM : forall a l, has (3 * a + 2) (add_name (3 * ns) (add_name (3 * ns + 1) l)) = has (3 * a + 2) l).
   { intros a l. replace (3 * ns) with (3 * ns + 0) at 1 by lia. rewrite has_rk_add by lia. apply has_rk_add. lia. }
@@ -138,26 +123,26 @@ Proof.
   - destruct reuse eqn:E; simpl.
     + (* reuse: only names grow *)
       unfold Inv, refreshed, cur_desc, cur_pos, settings. simpl.
-      split; [exact B1|split; [exact B2|split; [exact B3|split; [exact R|split; [exact P|split; [exact J|split]]]]]].
+      split; [exact B1|split; [exact B2|split; [exact B3|split; [exact R|split]]]].
       * intros Hr _. apply K; auto. unfold reuse in E. apply andb_true_iff in E. destruct E as [E _].
         apply andb_true_iff in E. apply E.
       * intros a id m rp H2 _ F Eid. rewrite NM in H2. apply (T a id m rp); auto.
         unfold reuse in E. apply andb_true_iff in E. destruct E as [E _]. apply andb_true_iff in E. apply E.
     + destruct srk; simpl.
       * unfold Inv, refreshed, cur_desc, cur_pos, settings. simpl.
-        split; [lia|split; [lia|split; [lia|split; [|split; [exact P|split; [exact Jc|split]]]]]].
+        split; [lia|split; [lia|split; [lia|split; [|split]]]].
         { intros a id m rp F. destruct (Nat.eq_dec a ns) as [->|Hne].
-          - rewrite upd_same in F. injection F as <- <- <-. split; [lia|exact Jc].
-          - rewrite upd_other in F by exact Hne. destruct (R a id m rp F). split; [lia|assumption]. }
+          - rewrite upd_same in F. injection F as <- <- <-. lia.
+          - rewrite upd_other in F by exact Hne. pose proof (R a id m rp F). lia. }
         { intros _ _. reflexivity. }
         { intros a id m rp _ _ F Eid. destruct (Nat.eq_dec a ns) as [->|Hne].
           - rewrite upd_same in F. rewrite upd_same. injection F as <- <- <-. repeat split.
-          - rewrite upd_other in F by exact Hne. destruct (R a id m rp F). lia. }
+          - rewrite upd_other in F by exact Hne. pose proof (R a id m rp F). lia. }
       * unfold Inv, refreshed, cur_desc, cur_pos, settings. simpl.
-        split; [lia|split; [lia|split; [lia|split; [|split; [exact P|split; [exact Jc|split]]]]]].
-        { intros a id m rp F. destruct (R a id m rp F). split; [lia|assumption]. }
+        split; [lia|split; [lia|split; [lia|split; [|split]]]].
+        { intros a id m rp F. pose proof (R a id m rp F). lia. }
         { intros _ _. reflexivity. }
-        { intros a id m rp _ _ F Eid. destruct (R a id m rp F). lia. }
+        { intros a id m rp _ _ F Eid. pose proof (R a id m rp F). lia. }
   - eexists. split; [reflexivity|]. simpl. split; [reflexivity|split; [reflexivity|split; [reflexivity|]]].
     intros Hr. destruct reuse eqn:E; [|split; reflexivity].
     assert (Hr2 : refreshed s2) by exact Hr.
@@ -172,75 +157,77 @@ Definition call_post (s' : St) (r : Res) : Prop :=
   | _ => True
   end.
 
-Lemma call_spec s p sd srk ns :
-  Inv s -> clean_op (Call p sd srk ns) ->
-  call_post (fst (do_call repaired s p sd srk ns)) (snd (do_call repaired s p sd srk ns)).
+Lemma with_ext_pos s x : st_pos s <> None -> st_pos (with_ext s x) <> None.
+Proof. unfold with_ext. destruct (st_pos s) eqn:P; [simpl; discriminate|intros H; rewrite P; exact H]. Qed.
+
+Lemma call_spec s p sd srk ns xd :
+  Inv s -> call_post (fst (do_call repaired s p sd srk ns xd)) (snd (do_call repaired s p sd srk ns xd)).
 Proof.
-  intros HI Hc. unfold do_call.
+  intros HI. unfold do_call.
   set (s1 := match sd with Some x => with_seed s x | None => s end).
   assert (I1 : Inv s1) by (unfold s1; destruct sd; auto).
   destruct p as [[q m]|].
-  - assert (Hq : p_jit q = 0) by exact Hc.
-    pose proof (Inv_set_pos s1 q m Hq I1) as I2.
-    assert (F1 : st_pos (fst (do_set_pos s1 q m)) = Some q) by reflexivity.
-    destruct (do_set_pos s1 q m) as [s2 del]. simpl in I2, F1.
-    pose proof (finish_ok s2 del srk ns I2) as FS.
-    destruct (finish_call repaired s2 del srk ns) as [s' r]. destruct FS as (IS & PS & o & -> & G & SE & PO & KV).
-    simpl. split; [exact IS|]. split; [exact G|split; [exact SE|split; [exact PO|split; [rewrite PS, F1; discriminate|exact KV]]]].
+  - pose proof (Inv_set_pos s1 q m I1) as I2.
+    assert (F1 : st_pos (fst (do_set_pos repaired s1 q m)) <> None) by (simpl; discriminate).
+    destruct (do_set_pos repaired s1 q m) as [s2 del]. simpl in I2, F1.
+    pose proof (finish_ok (with_ext s2 xd) del srk ns (Inv_with_ext s2 xd I2)) as FS.
+    pose proof (with_ext_pos s2 xd F1) as F2.
+    destruct (finish_call repaired (with_ext s2 xd) del srk ns) as [s' r]. destruct FS as (IS & PS & o & -> & G & SE & PO & KV).
+    simpl. split; [exact IS|]. split; [exact G|split; [exact SE|split; [exact PO|split; [rewrite PS; exact F2|exact KV]]]].
   - destruct (st_pos s1) as [c|] eqn:P.
-    + pose proof (finish_ok s1 false srk ns I1) as FS.
-      destruct (finish_call repaired s1 false srk ns) as [s' r]. destruct FS as (IS & PS & o & -> & G & SE & PO & KV).
-      simpl. split; [exact IS|]. split; [exact G|split; [exact SE|split; [exact PO|split; [rewrite PS, P; discriminate|exact KV]]]].
+    + pose proof (finish_ok (with_ext s1 xd) false srk ns (Inv_with_ext s1 xd I1)) as FS.
+      assert (F2 : st_pos (with_ext s1 xd) <> None) by (apply with_ext_pos; rewrite P; discriminate).
+      destruct (finish_call repaired (with_ext s1 xd) false srk ns) as [s' r]. destruct FS as (IS & PS & o & -> & G & SE & PO & KV).
+      simpl. split; [exact IS|]. split; [exact G|split; [exact SE|split; [exact PO|split; [rewrite PS; exact F2|exact KV]]]].
     + simpl. split; [exact I1|exact I].
 Qed.
 
-Lemma Inv_krige_call s p : Inv s -> clean_op (KrigeCall p) -> Inv (fst (do_krige_call s p)).
+Lemma Inv_krige_call s p : Inv s -> Inv (fst (do_krige_call repaired s p)).
 Proof.
-  intros HI Hc. unfold do_krige_call.
+  intros HI. unfold do_krige_call.
   assert (X : forall s2, Inv s2 ->
               Inv (mkSt (st_pos s2) (st_mesh s2) (st_cnames s2) (add_name 1 (add_name 0 (st_knames s2)))
                         (st_rk s2) (cur_desc s2) (st_cond s2) (st_model s2) (st_matmodel s2) (st_mtn s2)
                         (S (st_next s2)) (st_seed s2) (st_next s2) (st_ref s2))).
-  { intros s2 (B1 & B2 & B3 & R & P & J & K & T). unfold Inv, refreshed, cur_desc, cur_pos, settings. simpl.
-    split; [lia|split; [lia|split; [lia|split; [|split; [exact P|split; [|split]]]]]].
-    - intros a id m rp F. destruct (R a id m rp F). split; [lia|assumption].
-    - destruct (st_pos s2) eqn:Ps; [now apply P|reflexivity].
+  { intros s2 (B1 & B2 & B3 & R & K & T). unfold Inv, refreshed, cur_desc, cur_pos, settings. simpl.
+    split; [lia|split; [lia|split; [lia|split; [|split]]]].
+    - intros a id m rp F. pose proof (R a id m rp F). lia.
     - intros _ _. reflexivity.
-    - intros a id m rp _ _ F Eid. destruct (R a id m rp F). lia. }
+    - intros a id m rp _ _ F Eid. pose proof (R a id m rp F). lia. }
   destruct p as [[q m]|].
-  - apply (X (krige_set_pos s q m)). apply Inv_krige_set_pos; [exact Hc|exact HI].
+  - apply (X (krige_set_pos repaired s q m)). apply Inv_krige_set_pos; exact HI.
   - destruct (st_pos s) eqn:Ps; [apply (X s)|]; exact HI.
 Qed.
 
 (* ---------- every operation of the current tree preserves the invariant *)
-Lemma Inv_step s op : Inv s -> clean_op op -> Inv (fst (step repaired s op)).
+Lemma Inv_step s op : Inv s -> Inv (fst (step repaired s op)).
 Proof.
-  intros HI Hc. destruct op as [p sd srk ns|q m|k| | | | | | | |sd|q|p|q]; simpl.
-  - apply (call_spec s p sd srk ns HI Hc).
+  intros HI. destruct op as [p sd srk ns xd|q m|k| | | | | | | |sd|q|p|q]; simpl.
+  - apply (call_spec s p sd srk ns xd HI).
   - apply Inv_set_pos; auto.
-  - destruct HI as (B1 & B2 & B3 & R & P & J & K & T). unfold Inv, do_set_cond, refreshed, settings; simpl.
+  - destruct HI as (B1 & B2 & B3 & R & K & T). unfold Inv, do_set_cond, refreshed, settings; simpl.
     repeat split; try lia; try discriminate; auto; try (intros; discriminate);
-      try (destruct (R _ _ _ _ ltac:(eassumption)); try lia; assumption).
-  - destruct HI as (B1 & B2 & B3 & R & P & J & K & T). unfold Inv, do_model_inplace, refreshed, settings; simpl.
-    repeat split; try lia; auto; try (destruct (R _ _ _ _ ltac:(eassumption)); try lia; assumption);
+      try (intros; pose proof (R _ _ _ _ ltac:(eassumption)); lia).
+  - destruct HI as (B1 & B2 & B3 & R & K & T). unfold Inv, do_model_inplace, refreshed, settings; simpl.
+    repeat split; try lia; auto; try (intros; pose proof (R _ _ _ _ ltac:(eassumption)); lia);
       try (intros; eapply T; eauto; fail).
-  - destruct HI as (B1 & B2 & B3 & R & P & J & K & T).
+  - destruct HI as (B1 & B2 & B3 & R & K & T).
     unfold Inv, do_set_model, do_set_cond, do_model_inplace, refreshed, settings; simpl.
     repeat split; try lia; try discriminate; auto; try (intros; discriminate);
-      try (destruct (R _ _ _ _ ltac:(eassumption)); try lia; assumption).
-  - destruct HI as (B1 & B2 & B3 & R & P & J & K & T). unfold Inv, do_set_mtn, refreshed, settings; simpl.
+      try (intros; pose proof (R _ _ _ _ ltac:(eassumption)); lia).
+  - destruct HI as (B1 & B2 & B3 & R & K & T). unfold Inv, do_set_mtn, refreshed, settings; simpl.
     repeat split; try lia; try discriminate; auto; try (intros; discriminate);
-      try (destruct (R _ _ _ _ ltac:(eassumption)); try lia; assumption).
-  - destruct HI as (B1 & B2 & B3 & R & P & J & K & T). unfold Inv, do_set_mtn, refreshed, settings; simpl.
+      try (intros; pose proof (R _ _ _ _ ltac:(eassumption)); lia).
+  - destruct HI as (B1 & B2 & B3 & R & K & T). unfold Inv, do_set_mtn, refreshed, settings; simpl.
     repeat split; try lia; try discriminate; auto; try (intros; discriminate);
-      try (destruct (R _ _ _ _ ltac:(eassumption)); try lia; assumption).
-  - destruct HI as (B1 & B2 & B3 & R & P & J & K & T). unfold Inv, do_set_mtn, refreshed, settings; simpl.
+      try (intros; pose proof (R _ _ _ _ ltac:(eassumption)); lia).
+  - destruct HI as (B1 & B2 & B3 & R & K & T). unfold Inv, do_set_mtn, refreshed, settings; simpl.
     repeat split; try lia; try discriminate; auto; try (intros; discriminate);
-      try (destruct (R _ _ _ _ ltac:(eassumption)); try lia; assumption).
+      try (intros; pose proof (R _ _ _ _ ltac:(eassumption)); lia).
   - (* ReassignModel = set_condition() *)
-    destruct HI as (B1 & B2 & B3 & R & P & J & K & T). unfold Inv, do_set_cond, refreshed, settings; simpl.
+    destruct HI as (B1 & B2 & B3 & R & K & T). unfold Inv, do_set_cond, refreshed, settings; simpl.
     repeat split; try lia; try discriminate; auto; try (intros; discriminate);
-      try (destruct (R _ _ _ _ ltac:(eassumption)); try lia; assumption).
+      try (intros; pose proof (R _ _ _ _ ltac:(eassumption)); lia).
   - exact HI.
   - exact HI.
   - exact HI.
@@ -248,10 +235,10 @@ Proof.
   - apply Inv_with_pos; auto.
 Qed.
 
-Lemma Inv_run ops : forall s, Inv s -> clean ops -> Inv (run repaired ops s).
+Lemma Inv_run ops : forall s, Inv s -> Inv (run repaired ops s).
 Proof.
-  induction ops as [|op r IH]; intros s HI Hc; simpl in *; [exact HI|].
-  inversion Hc; subst. apply IH; [apply Inv_step; auto|assumption].
+  induction ops as [|op r IH]; intros s HI; simpl in *; [exact HI|].
+  apply IH. apply Inv_step; auto.
 Qed.
 
 (* ---------- what a freshly built object returns *)
@@ -260,39 +247,46 @@ Lemma fresh_result_eq s :
   let d := mkKDesc (cur_pos s) (st_mesh s) (st_cond s) (st_model s) (st_model s) (st_mtn s) in
   RField (mkOut false d d (st_model s) (st_seed s) (st_mtn s)).
 Proof.
-  unfold fresh_result, step, do_call, fresh_of, do_set_pos, pos_changed, finish_call. simpl.
-  rewrite orb_true_r. simpl. reflexivity.
+  unfold fresh_result, step, do_call, fresh_of, do_set_pos, pos_changed, finish_call, with_ext, with_pos, set_ext. simpl.
+  rewrite orb_true_r. simpl. destruct (cur_pos s); reflexivity.
 Qed.
 
-(* ---------- cache coherence over all histories *)
-Theorem cache_coherent sd0 ops p sd srk ns :
-  clean ops -> clean_op (Call p sd srk ns) ->
+(* ---------- cache coherence over all histories: NO side condition on the positions any more *)
+Theorem cache_coherent sd0 ops p sd srk ns xd :
   let s := run repaired ops (init sd0) in
-  forall s' o, step repaired s (Call p sd srk ns) = (s', RField o) -> refreshed s' ->
+  forall s' o, step repaired s (Call p sd srk ns xd) = (s', RField o) -> refreshed s' ->
   same_field (RField o) (fresh_result s').
 Proof.
-  intros Hc Hop s s' o E Hr.
-  assert (HI : Inv s) by (apply Inv_run; [apply Inv_init|exact Hc]).
-  pose proof (call_spec s p sd srk ns HI Hop) as C. simpl in E. rewrite E in C. simpl in C.
+  intros s s' o E Hr.
+  assert (HI : Inv s) by (apply Inv_run; apply Inv_init).
+  pose proof (call_spec s p sd srk ns xd HI) as C. simpl in E. rewrite E in C. simpl in C.
   destruct C as (_ & G & SE & PO & _ & KV). destruct (KV Hr) as [K V].
   rewrite fresh_result_eq. simpl. unfold refreshed in Hr.
   rewrite K, V, G, SE, PO. unfold cur_desc. rewrite Hr. repeat split.
 Qed.
 
 (* whenever the reuse branch is taken in a refreshed state, the stored results are the current ones *)
-Theorem reuse_only_current sd0 ops p sd srk ns :
-  clean ops -> clean_op (Call p sd srk ns) ->
+Theorem reuse_only_current sd0 ops p sd srk ns xd :
   let s := run repaired ops (init sd0) in
-  forall s' o, step repaired s (Call p sd srk ns) = (s', RField o) -> refreshed s' -> o_reuse o = true ->
+  forall s' o, step repaired s (Call p sd srk ns xd) = (s', RField o) -> refreshed s' -> o_reuse o = true ->
   o_k o = cur_desc s' /\ o_v o = cur_desc s'.
 Proof.
-  intros Hc Hop s s' o E Hr _.
-  assert (HI : Inv s) by (apply Inv_run; [apply Inv_init|exact Hc]).
-  pose proof (call_spec s p sd srk ns HI Hop) as C. simpl in E. rewrite E in C. simpl in C.
+  intros s s' o E Hr _.
+  assert (HI : Inv s) by (apply Inv_run; apply Inv_init).
+  pose proof (call_spec s p sd srk ns xd HI) as C. simpl in E. rewrite E in C. simpl in C.
   destruct C as (_ & _ & _ & _ & _ & KV). exact (KV Hr).
 Qed.
 
 (* ---------- legitimate reuse: same position (or none given), any new seed, on every version of the tree *)
+Lemma pos_close_refl fx a : pos_close fx a a = true.
+Proof. unfold pos_close. rewrite Nat.eqb_refl. destruct (f_exactpos fx); [apply Nat.eqb_refl|reflexivity]. Qed.
+Lemma pos_close_trans fx a b c : pos_close fx a b = true -> pos_close fx a c = true -> pos_close fx c b = true.
+Proof.
+  unfold pos_close. intros H1 H2. apply andb_true_iff in H1, H2. destruct H1 as [A1 A2], H2 as [B1 B2].
+  apply Nat.eqb_eq in A1, B1. apply andb_true_iff. split; [apply Nat.eqb_eq; congruence|].
+  destruct (f_exactpos fx); [|reflexivity]. apply Nat.eqb_eq in A2, B2. apply Nat.eqb_eq. congruence.
+Qed.
+
 Lemma token_ok_ext fx ns s t : st_pos s = st_pos t -> st_mesh s = st_mesh t -> st_kvid s = st_kvid t -> st_ref s = st_ref t ->
   token_ok fx s ns = token_ok fx t ns.
 Proof. intros A B C D. unfold token_ok, cur_pos. now rewrite A, B, C, D. Qed.
@@ -316,7 +310,7 @@ Proof.
     split; [do 2 apply has_add_mono; apply has_add_same|]. split; [apply has_add_mono; apply has_add_same|].
     split; [|split; [reflexivity|split; [reflexivity|eexists; split; [reflexivity|split; [apply upd_same|reflexivity]]]]].
     destruct (f_token fx); [|reflexivity]. unfold token_ok, cur_pos. simpl. rewrite upd_same.
-    rewrite Nat.eqb_refl, eqb_reflx. unfold pos_close. now rewrite Nat.eqb_refl.
+    rewrite Nat.eqb_refl, eqb_reflx, pos_close_refl. simpl. destruct (f_exttoken fx); [apply Nat.eqb_refl|reflexivity].
 Qed.
 
 Lemma finish_reuse fx st srk ns : rkset srk ns = ns ->
@@ -326,25 +320,34 @@ Proof.
   intros HR H2 H1 HT. unfold finish_call. rewrite HR. rewrite H2, H1, HT. simpl. eexists _, _. split; [reflexivity|]. simpl. auto.
 Qed.
 
-Theorem reuse_when_unchanged fx s p sd ns s1 o1 :
-  step fx s (Call p sd true ns) = (s1, RField o1) ->
+Lemma with_ext_id s x q : st_pos s = Some q -> p_ext q = x -> with_ext s x = s.
+Proof. destruct s, q. simpl. intros E <-. unfold with_ext, with_pos, set_ext. simpl. rewrite E. simpl. now rewrite <- E. Qed.
+
+Lemma with_ext_some s x : st_pos s <> None -> exists q, st_pos (with_ext s x) = Some q /\ p_ext q = x.
+Proof.
+  unfold with_ext. destruct (st_pos s) as [q|] eqn:P; [|contradiction]. intros _. exists (set_ext q x). split; reflexivity.
+Qed.
+
+Theorem reuse_when_unchanged fx s p sd ns xd s1 o1 :
+  step fx s (Call p sd true ns xd) = (s1, RField o1) ->
   forall q sd2 srk, rkset srk ns = ns ->
-  (q = None \/ exists c, q = Some (c, st_mesh s1) /\ pos_close (cur_pos s1) c = true) ->
-  exists s2 o2, step fx s1 (Call q sd2 srk ns) = (s2, RField o2) /\ o_reuse o2 = true /\ o_k o2 = o_k o1 /\ o_v o2 = o_v o1.
+  (q = None \/ exists c, q = Some (c, st_mesh s1) /\ pos_close fx (cur_pos s1) c = true) ->
+  exists s2 o2, step fx s1 (Call q sd2 srk ns xd) = (s2, RField o2) /\ o_reuse o2 = true /\ o_k o2 = o_k o1 /\ o_v o2 = o_v o1.
 Proof.
   simpl. unfold do_call at 1.
   set (sa := match sd with Some x => with_seed s x | None => s end).
   intros E q sd2 srk HR Hq.
-  assert (X : exists sb del, finish_call fx sb del true ns = (s1, RField o1) /\ st_pos sb <> None).
+  assert (X : exists sb del, finish_call fx sb del true ns = (s1, RField o1) /\ exists qb, st_pos sb = Some qb /\ p_ext qb = xd).
   { destruct p as [[c m]|].
-    - assert (F1 : st_pos (fst (do_set_pos sa c m)) = Some c) by reflexivity.
-      destruct (do_set_pos sa c m) as [sb del]. simpl in F1.
-      exists sb, del. split; [exact E|]. rewrite F1. discriminate.
-    - destruct (st_pos sa) eqn:P; [|discriminate]. exists sa, false. split; [exact E|]. rewrite P. discriminate. }
-  destruct X as (sb & del & F & Pb).
+    - assert (F1 : st_pos (fst (do_set_pos fx sa c m)) <> None) by (simpl; discriminate).
+      destruct (do_set_pos fx sa c m) as [sb del]. simpl in F1.
+      exists (with_ext sb xd), del. split; [exact E|]. apply with_ext_some; exact F1.
+    - destruct (st_pos sa) eqn:P; [|discriminate]. exists (with_ext sa xd), false. split; [exact E|].
+      apply with_ext_some. rewrite P. discriminate. }
+  destruct X as (sb & del & F & qb & Pb & Xb).
   pose proof (finish_facts fx sb del ns) as N. rewrite F in N. cbn [fst snd] in N.
   destruct N as (N2 & N1 & TK & P1 & M1 & o & Eo & K1 & K2). injection Eo as <-.
-  rewrite <- K1, <- K2.
+  rewrite <- K1, <- K2. rewrite Pb in P1.
   unfold do_call.
   set (sc := match sd2 with Some x => with_seed s1 x | None => s1 end).
   assert (C : st_pos sc = st_pos s1 /\ st_mesh sc = st_mesh s1 /\ st_cnames sc = st_cnames s1 /\
@@ -353,21 +356,23 @@ Proof.
     by (unfold sc; destruct sd2; simpl; repeat split).
   destruct C as (C1 & C2 & C3 & C4 & C5 & C6 & C7 & C8).
   destruct Hq as [->|(c & -> & Hcl)].
-  - rewrite C1, P1. destruct (st_pos sb) eqn:Pb'; [|contradiction].
+  - rewrite C1, P1. rewrite (with_ext_id sc xd qb) by (try rewrite C1; assumption).
     rewrite <- C5, <- C6. apply finish_reuse; [exact HR|now rewrite C3|now rewrite C4|].
     destruct (f_token fx); [|reflexivity]. rewrite <- TK. apply token_ok_ext; auto.
-  - assert (D : pos_changed sc c (st_mesh s1) = false).
-    { unfold pos_changed. rewrite C1, C2, eqb_reflx. unfold cur_pos in Hcl.
-      destruct (st_pos s1); [now rewrite Hcl|]. rewrite P1 in Pb. contradiction. }
+  - assert (D : pos_changed fx sc c (st_mesh s1) = false).
+    { unfold pos_changed. rewrite C1, C2, eqb_reflx. unfold cur_pos in Hcl. rewrite P1 in *. now rewrite Hcl. }
     unfold do_set_pos. rewrite D.
-    match goal with |- context [finish_call fx ?st false srk ns] => set (sd_ := st) end.
-    rewrite <- C5, <- C6. change (st_rk sc) with (st_rk sd_). change (st_kv sc) with (st_kv sd_).
+    match goal with |- context [finish_call fx (with_ext ?st xd) false srk ns] => set (sd_ := st) end.
+    rewrite <- C5, <- C6. change (st_rk sc) with (st_rk (with_ext sd_ xd)). change (st_kv sc) with (st_kv (with_ext sd_ xd)).
     apply finish_reuse; [exact HR|simpl; now rewrite C3|simpl; now rewrite C4|].
     destruct (f_token fx); [|reflexivity]. unfold token_ok, cur_pos in *. simpl. rewrite C7, C8.
-    destruct (st_ref s1 (slot fx ns)) as [[[id m] rp]|]; [|discriminate].
-    apply andb_true_iff in TK. destruct TK as [TK T3]. rewrite TK. simpl.
-    destruct (st_pos s1) as [c1|]; [|rewrite P1 in Pb; contradiction].
-    unfold pos_close in *. apply Nat.eqb_eq in Hcl, T3. apply Nat.eqb_eq. congruence.
+    rewrite P1 in TK. destruct (st_ref s1 (slot fx ns)) as [[[id m] rp]|]; [|discriminate].
+    apply andb_true_iff in TK. destruct TK as [TK T4]. apply andb_true_iff in TK. destruct TK as [TK T3].
+    rewrite TK. simpl. rewrite Xb in T4.
+    rewrite P1 in Hcl.
+    assert (PC : pos_close fx (set_ext c xd) rp = true).
+    { pose proof (pos_close_trans fx qb rp c T3 Hcl) as H. unfold pos_close in *. simpl. exact H. }
+    rewrite PC. exact T4.
 Qed.
 
 (* ---------- the hypothesis [refreshed] of cache_coherent: the documented refresh (set_condition, with or without
@@ -382,92 +387,91 @@ Theorem refreshed_characterised (s : St) :
   (forall op, refreshed s -> op <> ModelInplace -> refreshed (fst (step repaired s op))).
 Proof.
   split; [intros k; reflexivity|]. split; [reflexivity|]. split; [reflexivity|].
-  intros op Hr Hop. destruct op as [p sd srk ns|q m|k| | | | | | | |sd|q|p|q]; try reflexivity; try exact Hr; try contradiction.
+  assert (WE : forall t x, refreshed t -> refreshed (with_ext t x)).
+  { intros t x H. unfold with_ext. destruct (st_pos t); exact H. }
+  intros op Hr Hop. destruct op as [p sd srk ns xd|q m|k| | | | | | | |sd|q|p|q]; try reflexivity; try exact Hr; try contradiction.
   - simpl. unfold do_call.
     set (s1 := match sd with Some x => with_seed s x | None => s end).
     assert (R1 : refreshed s1) by (unfold s1; destruct sd; exact Hr).
     destruct p as [[q m]|].
-    + assert (R2 : refreshed (fst (do_set_pos s1 q m))) by exact R1.
-      destruct (do_set_pos s1 q m) as [s2 del]. apply finish_refreshed. exact R2.
-    + destruct (st_pos s1); [apply finish_refreshed|]; exact R1.
+    + assert (R2 : refreshed (fst (do_set_pos repaired s1 q m))) by exact R1.
+      destruct (do_set_pos repaired s1 q m) as [s2 del]. apply finish_refreshed. apply WE. exact R2.
+    + destruct (st_pos s1); [apply finish_refreshed; apply WE|]; exact R1.
   - simpl. unfold do_krige_call. destruct p as [[q m]|]; [exact Hr|]. destruct (st_pos s); exact Hr.
 Qed.
 
 (* ---------- earlier versions of the tree are refuted *)
-Definition P0 : Pos := mkPos 0 0.
-Definition P0j : Pos := mkPos 0 1.     (* inside the allclose window of P0 *)
-Definition P1 : Pos := mkPos 1 0.
+Definition P0 : Pos := mkPos 0 0 0.
+Definition P0j : Pos := mkPos 0 1 0.     (* inside the np.allclose window of P0 *)
+Definition P1 : Pos := mkPos 1 0 0.
 
 Definition stale (fx : Fix) (sd0 : nat) (ops : list Op) (last : Op) : Prop :=
-  clean ops /\ clean_op last /\
   exists s' o, step fx (run fx ops (init sd0)) last = (s', RField o) /\ refreshed s' /\
                ~ same_field (RField o) (fresh_result s').
 
 Ltac stale_witness :=
-  unfold stale; split; [repeat constructor|]; split; [exact I || reflexivity|];
-  eexists _, _; split; [vm_compute; reflexivity|]; split; [vm_compute; reflexivity|];
+  unfold stale; eexists _, _; split; [vm_compute; reflexivity|]; split; [vm_compute; reflexivity|];
   vm_compute; intros (H & _); discriminate H.
 
-Definition c0 : Op := Call (Some (P0, false)) None true 0.
+Definition c0 : Op := Call (Some (P0, false)) None true 0 0.
+Definition cn : Op := Call None None true 0 0.
 Definition hist_set_condition := [c0; SetCond NewVals].
 Definition hist_mean := [c0; SetMean].
 Definition hist_model := [c0; SetModel; SetCond Refresh].
 Definition hist_inplace_refresh := [c0; ModelInplace; SetCond Refresh].
 
 (* the pinned tree (before 2a36b2f) *)
-Theorem pinned_refuted_set_condition : stale pinned 7 hist_set_condition (Call None None true 0).
+Theorem pinned_refuted_set_condition : stale pinned 7 hist_set_condition cn.
 Proof. stale_witness. Qed.
-Theorem pinned_refuted_mean : stale pinned 7 hist_mean (Call None None true 0).
+Theorem pinned_refuted_mean : stale pinned 7 hist_mean cn.
 Proof. stale_witness. Qed.
-Theorem pinned_refuted_model : stale pinned 7 hist_model (Call None (Some 3) true 0).
+Theorem pinned_refuted_model : stale pinned 7 hist_model (Call None (Some 3) true 0 0).
 Proof. stale_witness. Qed.
-Theorem pinned_refuted_inplace_refresh : stale pinned 7 hist_inplace_refresh (Call None None true 0).
+Theorem pinned_refuted_inplace_refresh : stale pinned 7 hist_inplace_refresh cn.
 Proof. stale_witness. Qed.
 
 (* the tree after 2a36b2f only: aliased positions, direct kriging call, pos assignment, raw_krige not stored *)
 Definition hist_mutate := [c0; MutatePos P1].
 Definition hist_direct_krige := [c0; KrigeCall (Some (P1, false))].
 Definition hist_assign_pos := [c0; AssignPos P1].
-Definition hist_no_store := [c0; SetCond NewVals; Call None None false 0].
+Definition hist_no_store := [c0; SetCond NewVals; Call None None false 0 0].
 
-Theorem first_repair_refuted_mutate_pos : stale first_repair 7 hist_mutate (Call (Some (P1, false)) None true 0).
+Theorem first_repair_refuted_mutate_pos : stale first_repair 7 hist_mutate (Call (Some (P1, false)) None true 0 0).
 Proof. stale_witness. Qed.
-Theorem first_repair_refuted_direct_krige : stale first_repair 7 hist_direct_krige (Call None None true 0).
+Theorem first_repair_refuted_direct_krige : stale first_repair 7 hist_direct_krige cn.
 Proof. stale_witness. Qed.
-Theorem first_repair_refuted_assign_pos : stale first_repair 7 hist_assign_pos (Call None None true 0).
+Theorem first_repair_refuted_assign_pos : stale first_repair 7 hist_assign_pos cn.
 Proof. stale_witness. Qed.
-Theorem first_repair_refuted_no_store : stale first_repair 7 hist_no_store (Call None None true 0).
+Theorem first_repair_refuted_no_store : stale first_repair 7 hist_no_store cn.
 Proof. stale_witness. Qed.
 
 (* one reference slot shared by all store names (instead of one per raw-kriging name): a call under other names
    makes the stale default-named raw kriging field look current *)
-Definition hist_other_names := [c0; SetCond NewVals; Call None None true 1].
-Theorem shared_ref_refuted : stale shared_ref 7 hist_other_names (Call None None true 0).
+Definition hist_other_names := [c0; SetCond NewVals; Call None None true 1 0].
+Theorem shared_ref_refuted : stale shared_ref 7 hist_other_names cn.
 Proof. stale_witness. Qed.
 
 (* conditioning arrays kept as views: the caller's in-place edit changes the data behind the stored results *)
-Theorem aliased_cond_refuted : stale aliased_cond 7 [c0; MutateCond] (Call None None true 0).
+Theorem aliased_cond_refuted : stale aliased_cond 7 [c0; MutateCond] cn.
+Proof. stale_witness. Qed.
+
+(* _pos_equal with np.allclose: a position change below the tolerance keeps the stored results *)
+Theorem allclose_pos_refuted : stale allclose_pos 7 [c0] (Call (Some (P0j, false)) None true 0 0).
+Proof. stale_witness. Qed.
+
+(* reuse test that ignores the external drift given with the call *)
+Theorem no_ext_token_refuted : stale no_ext_token 7 [Call (Some (P0, false)) None true 0 1] (Call None None true 0 2).
 Proof. stale_witness. Qed.
 
 (* in-place model edit followed by re-assignment of the same object: up to date again, the old results are gone *)
 Example reassign_same_model_refreshes :
   let s := run repaired [c0; ModelInplace; ReassignModel] (init 7) in
-  refreshed s /\ exists s' o, step repaired s (Call None None true 0) = (s', RField o) /\ o_reuse o = false.
+  refreshed s /\ exists s' o, step repaired s cn = (s', RField o) /\ o_reuse o = false.
 Proof. split; [reflexivity|]. eexists _, _. split; [vm_compute; reflexivity|reflexivity]. Qed.
 
-(* ---------- the np.allclose window: a position change below the tolerance keeps the stored results *)
-Theorem window_refuted :
-  exists s' o, step repaired (run repaired [c0] (init 7)) (Call (Some (P0j, false)) None true 0) = (s', RField o)
-               /\ refreshed s' /\ o_reuse o = true /\ ~ same_field (RField o) (fresh_result s').
-Proof.
-  eexists _, _. split; [vm_compute; reflexivity|]. split; [vm_compute; reflexivity|]. split; [reflexivity|].
-  vm_compute. intros (H & _). discriminate H.
-Qed.
-
-(* the hypotheses of cache_coherent are satisfiable, by a history that exercises every operation *)
-Example clean_example :
-  clean [c0; Call None (Some 5) false 0; SetCond NewVals; Call (Some (P0, false)) None true 1;
-         SetPos P1 true; ModelInplace; ReassignModel; ModelInplace; SetCond Refresh; SetModel; SetMean; SetTrend; SetNorm;
-         SetGen 4; MutateCond; MutatePos P0; KrigeCall (Some (P0, true)); KrigeCall None; AssignPos P1;
-         Call (Some (P1, true)) (Some 9) true 2].
-Proof. repeat constructor. Qed.
+(* on the current tree the two histories above are coherent (instances of cache_coherent, shown by computation) *)
+Example current_tree_recomputes :
+  (exists s' o, step repaired (run repaired [c0] (init 7)) (Call (Some (P0j, false)) None true 0 0) = (s', RField o) /\ o_reuse o = false) /\
+  (exists s' o, step repaired (run repaired [Call (Some (P0, false)) None true 0 1] (init 7)) (Call None None true 0 2) = (s', RField o)
+                /\ o_reuse o = false).
+Proof. split; eexists _, _; (split; [vm_compute; reflexivity|reflexivity]). Qed.
